@@ -322,3 +322,87 @@ func H_kq_fd_history() {
 	verifAssert(!verifQ.kqOpen && !verifQ.pipeROpen && !verifQ.pipeWOpen && verifQ.badClose == 0, "Close releases the kqueue and the pipe, nothing closed twice")
 	verifReach("kq-fd-history")
 }
+
+// The same path added again under another spelling is the same watch: no second
+// descriptor, one WatchList entry, and one Remove (under any spelling) ends it.
+func H_kq_readd_spelling() {
+	verifQReset()
+	verifAddNode("/d", nDir, "")
+	verifAddNode("/d/a", [...]int{nAbsent, nFile}[verifChoose("kind-a", 2)], "")
+	verifAddNode("/f", nFile, "")
+	wt, w := verifKqNew()
+	dirs := [...]string{"/d", "/d/", "/d/.", "//d", "/d/a/.."}
+	files := [...]string{"/f", "//f", "/./f", "/d/../f"}
+	var s1, s2, s3 string
+	if verifBool("file") {
+		s1, s2, s3 = files[verifChoose("s1", len(files))], files[verifChoose("s2", len(files))], files[verifChoose("s3", len(files))]
+	} else {
+		s1, s2, s3 = dirs[verifChoose("s1", len(dirs))], dirs[verifChoose("s2", len(dirs))], dirs[verifChoose("s3", len(dirs))]
+	}
+	verifAssert(wt.Add(s1) == nil, "Add succeeds")
+	verifK1(w, " after Add")
+	n1 := verifOpenCount()
+	verifAssert(wt.Add(s2) == nil, "Add of a watched path under another spelling succeeds")
+	verifK1(w, " after adding a watched path again under another spelling")
+	verifAssert(verifOpenCount() == n1, "adding a watched path again (under any spelling) must not open another descriptor")
+	l := wt.WatchList()
+	verifAssert(len(l) == 1 && l[0] == filepath.Clean(s1), "WatchList shows the path once, under its cleaned spelling")
+	verifAssert(wt.Remove(s3) == nil, "Remove under any spelling of the added path succeeds")
+	verifK1(w, " after Remove")
+	verifAssert(len(wt.WatchList()) == 0, "WatchList is empty once everything has been removed")
+	verifKqEmpty(w, " once everything has been removed")
+	verifAssert(wt.Close() == nil, "Close returns")
+	verifQuiesce()
+	verifAssert(verifOpenCount() == 0 && !verifQ.kqOpen && !verifQ.pipeROpen && !verifQ.pipeWOpen && verifQ.badClose == 0, "nothing stays open, nothing closed twice")
+	verifReach("kq-readd-spelling")
+}
+
+// A path the user added inside a watched directory goes away (its watch ends with
+// the notification) and an entry of the same name appears again: that one is a
+// per-entry watch created internally - not listed - and goes with the directory's.
+func H_kq_user_entry_gone() {
+	verifQReset()
+	verifAddNode("/d", nDir, "")
+	verifAddNode("/d/a", nFile, "")
+	verifAddNode("/d/c", nAbsent, "")
+	wt, w := verifKqNew()
+	if verifBool("dir-first") {
+		verifAssert(wt.Add("/d") == nil, "Add dir")
+		verifAssert(wt.Add("/d/a") == nil, "Add entry")
+	} else {
+		verifAssert(wt.Add("/d/a") == nil, "Add entry")
+		verifAssert(wt.Add("/d") == nil, "Add dir")
+	}
+	verifK1(w, " after Add")
+	verifAssert(len(wt.WatchList()) == 2, "both user paths are listed")
+	renamed := verifBool("renamed")
+	verifNodeOf2("/d/a").kind = nAbsent
+	if renamed {
+		verifNodeOf2("/d/c").kind = nFile
+		verifRaise("/d/a", unix.NOTE_RENAME)
+	} else {
+		verifRaise("/d/a", unix.NOTE_DELETE)
+	}
+	verifRaise("/d", unix.NOTE_WRITE)
+	verifCollect(wt, nil)
+	verifK1(w, " after the user-added entry went away")
+	l := wt.WatchList()
+	verifAssert(len(l) == 1 && l[0] == "/d", "a path whose watch ended with its deletion/rename is no longer listed")
+	if verifBool("recreated") {
+		verifNodeOf2("/d/a").kind = nFile
+		verifRaise("/d", unix.NOTE_WRITE)
+		verifCollect(wt, nil)
+		verifK1(w, " after an entry of the same name appeared again")
+		l = wt.WatchList()
+		verifAssert(len(l) == 1 && l[0] == "/d", "WatchList shows only paths the user added, never the per-entry watches created internally")
+		verifReach("kq-user-entry-recreated")
+	}
+	verifAssert(wt.Remove("/d") == nil, "Remove dir")
+	verifK1(w, " after Remove")
+	verifAssert(len(wt.WatchList()) == 0, "WatchList is empty once everything has been removed")
+	verifKqEmpty(w, " after removing the directory watch (its entry watches go with it)")
+	verifAssert(wt.Close() == nil, "Close")
+	verifQuiesce()
+	verifAssert(verifOpenCount() == 0 && !verifQ.kqOpen && verifQ.badClose == 0, "nothing stays open")
+	verifReach("kq-user-entry-gone")
+}
